@@ -57,6 +57,15 @@ struct TextValue {
 	bool operator<(const TextValue & o) const { return repr < o.repr; }
 };
 
+// the same textual storage with C-style comparison operators returning int (merely convertible to bool)
+struct IntOpsValue {
+	std::string repr;
+	IntOpsValue() {}
+	template <typename T> IntOpsValue(const T & v) : repr(TypeTag<T>::repr(v)) {}
+	int operator==(const IntOpsValue & o) const { return repr == o.repr ? 1 : 0; }
+	int operator<(const IntOpsValue & o) const { return repr < o.repr ? 1 : 0; }
+};
+
 template <typename Id> struct OrderedPol { using Threading = eventpp::SingleThreading; template <typename K, typename V> using Map = std::map<K, V>; };
 template <typename Id> struct HashedPol { using Threading = eventpp::SingleThreading; template <typename K, typename V> using Map = std::unordered_map<K, V>; };
 
@@ -143,13 +152,15 @@ static void runAll(Ctx & ctx, UnitReport & rep) {
 	runConfig<eventpp::AnyId<std::hash, TextValue>, 2>(ctx, "AnyId<std::hash, textual storage>", evals);
 	runConfig<eventpp::AnyId<OneBit, TextValue>, 2>(ctx, "AnyId<1-bit digester, textual storage>", evals);
 	runConfig<eventpp::AnyId<Constant, TextValue>, 2>(ctx, "AnyId<constant digester, textual storage>", evals);
+	runConfig<eventpp::AnyId<OneBit, IntOpsValue>, 2>(ctx, "AnyId<1-bit digester, textual storage with int-returning operators>", evals);
+	runConfig<eventpp::AnyId<Constant, IntOpsValue>, 2>(ctx, "AnyId<constant digester, textual storage with int-returning operators>", evals);
 	runConfig<eventpp::AnyId<Wide, eventpp::EmptyAnyStorage>, 0>(ctx, "AnyId<two-word digest (lossy size_t conversion), EmptyAnyStorage>", evals);
 	runConfig<eventpp::AnyId<Wide, TextValue>, 2>(ctx, "AnyId<two-word digest (lossy size_t conversion), textual storage>", evals);
 	runConfig<eventpp::AnyId<Textual, eventpp::EmptyAnyStorage>, 0>(ctx, "AnyId<std::string digest, EmptyAnyStorage>", evals);
 	runConfig<eventpp::AnyId<Textual, TaggedValue>, 1>(ctx, "AnyId<std::string digest, value storage>", evals);
 	ctx.executions = evals;
 	rep.num["executions"] = (double)evals;
-	rep.num["configurations"] = 13;
+	rep.num["configurations"] = 15;
 	ctx.samples.push_back("AnyId<1-bit digester, value storage>: a = int 1, b = long 1 (digest collision, distinct ids); all 16^2 pairs and 16^3 triples per configuration");
 }
 
